@@ -38,6 +38,21 @@ def flag(s):
     return getattr(s, FLAG)
 
 
+def fa(vs, body, *pats):
+    """ForAll with explicit triggers when z3 accepts them (a select on a store / lambda term is not a valid trigger)."""
+    from pyvc.values import _pattern_ok
+
+    def ok(p):
+        return all(_pattern_ok(p.arg(i)) for i in range(p.num_args())) if z3.is_app(p) and p.decl().name() == "pattern" else _pattern_ok(p)
+
+    try:
+        if pats and all(ok(p) for p in pats):
+            return z3.ForAll(vs, body, patterns=list(pats))
+    except z3.Z3Exception:
+        pass
+    return z3.ForAll(vs, body)
+
+
 # ---------------------------------------------------------------------------- Seeder
 schema(SEEDER, {"default_seed": TInt})
 
@@ -458,21 +473,6 @@ NBI = TDict(TInt, TStr)
 LSTR = TList(TStr)
 
 
-def fa(vs, body, *pats):
-    """ForAll with explicit triggers when z3 accepts them (a select on a store / lambda term is not a valid trigger)."""
-    from pyvc.values import _pattern_ok
-
-    def ok(p):
-        return all(_pattern_ok(p.arg(i)) for i in range(p.num_args())) if z3.is_app(p) and p.decl().name() == "pattern" else _pattern_ok(p)
-
-    try:
-        if pats and all(ok(p) for p in pats):
-            return z3.ForAll(vs, body, patterns=list(pats))
-    except z3.Z3Exception:
-        pass
-    return z3.ForAll(vs, body)
-
-
 def in_list(L, x):
     i = z3.Int("i!il")
     return z3.Exists([i], z3.And(0 <= i, i < L.n, L.elems[i] == x))
@@ -508,11 +508,6 @@ def _diag_inv1(c, j):
     s = c.old.design_space
     return [("same-variable", z3.And(c.locals["start"] == c.pre_locals["start"], c.locals["size"] == c.pre_locals["size"]))] + \
         _nbi_facts(s, c.locals["name_by_index"], c.locals["start"] + j)
-
-
-def diag_reversed(c, nbi_vals, j):
-    rev = c.old.settings.reverse if hasattr(c.old.settings, "reverse") else None
-    return rev
 
 
 def _kw_field(c, name):
@@ -624,8 +619,8 @@ class RoundVectBatch(Contract):
         cp = z3.BoolVal(cp) if isinstance(cp, bool) else cp
         rng = z3.And(0 <= r, r < x0.obj.shape[0], 0 <= i, i < d.dim)
         return [("shape", z3.And(res.obj.shape[0] == x0.obj.shape[0], res.obj.shape[1] == d.dim)),
-                ("rounded", z3.ForAll([r, i], z3.Implies(rng, el2(res, r, i) == rounded_if_integer(d, i, el2(x0, r, i))))),
-                ("in-place-unless-copy", z3.ForAll([r, i], z3.Implies(rng, el2(x1, r, i) == z3.If(cp, el2(x0, r, i), el2(res, r, i))))),
+                ("rounded", fa([r, i], z3.Implies(rng, el2(res, r, i) == rounded_if_integer(d, i, el2(x0, r, i))), el2(res, r, i))),
+                ("in-place-unless-copy", fa([r, i], z3.Implies(rng, el2(x1, r, i) == z3.If(cp, el2(x0, r, i), el2(res, r, i))), el2(x1, r, i))),
                 ("argument-shape-kept", z3.And(x1.obj.shape[0] == x0.obj.shape[0], x1.obj.shape[1] == x0.obj.shape[1]))]
 
 
@@ -647,8 +642,17 @@ class UnnormalizeVectBatch(Contract):
     def requires(self, c):
         s = c.old.self
         d = N2.S(s)
+        i = z3.Int("i!ai")
         return N2.wfnum(s) + [("one-column-per-component", c.old.x_vect.obj.shape[1] == d.dim), ("monotone-lemma", N2.increasing_implies_distinct(d)),
-                              ("out-is-none", c.arg("out") is None)]
+                              ("out-is-none", c.arg("out") is None),
+                              # DesignSpace invariant: the common dtype of the current values is an integer dtype only when every variable is an
+                              # integer variable (values are cast to the dtype of their variable's type when they are set)
+                              ("integer-dtype-only-for-all-integer-spaces", z3.Implies(d.kind == str_lit("i"), z3.ForAll([i], z3.Implies(z3.And(0 <= i, i < d.dim), N2.el(d.ic, i)),
+                                                                                                                         patterns=[N2.el(d.ic, i)])))]
+
+    def axioms(self, c):
+        t = z3.Real("t!ra")
+        return [("numpy.round-is-integer-valued", z3.ForAll([t], z3.IsInt(np_round(t)), patterns=[np_round(t)]))]
 
     def ensures(self, c):
         d = N2.S(c.old.self)
@@ -656,9 +660,139 @@ class UnnormalizeVectBatch(Contract):
         r, j, i = z3.Int("r!ub"), z3.Int("j!ub"), z3.Int("i!ub")
         nij = N2.el(d.ni, j)
         rows = z3.And(0 <= r, r < x.obj.shape[0])
-        affine = el2(x, r, nij) * (N2.el(d.ub, nij) - N2.el(d.lb, nij)) + N2.el(d.lb, nij)
+        # (written with the cached norm factor: _norm_factor[i] = ub[i] - lb[i] by the validity of the cached data - clause `norm-factor` of wfnum)
+        affine = el2(x, r, nij) * N2.el(d.nf, nij) + N2.el(d.lb, nij)
         return [("shape", z3.And(res.obj.shape[0] == x.obj.shape[0], res.obj.shape[1] == d.dim)),
                 ("normalized-components", z3.ForAll([r, j], z3.Implies(z3.And(rows, 0 <= j, j < N2.ln(d.ni)), relem(res, r, nij) == rounded_if_integer(d, nij, affine)))),
                 ("other-components", z3.ForAll([r, i], z3.Implies(z3.And(rows, 0 <= i, i < d.dim, N2.not_normalized(d, i)),
                                                                   relem(res, r, i) == rounded_if_integer(d, i, el2(x, r, i))))),
                 ("unit-samples-untouched", z3.BoolVal(c.result.ref.id != c.old.x_vect.ref.id))]
+
+
+# ---------------------------------------------------------------------------- lemmas (pure SMT)
+@register
+class UnitCubeLemmas(Contract):
+    """Per component, over the formulas proved for untransform_vect (UnnormalizeVectBatch) and the numpy.round axioms:
+    a unit sample lands inside the bounds; with integer bounds the rounded value is an integer inside the bounds."""
+
+    targets = ()
+    prop = ("C14",)
+    lemma = True
+
+    def lemmas(self):
+        u, lb, ub, nf, x = z3.Reals("u lb ub nf x")
+        U = u * nf + lb  # noqa: N806  (what UnnormalizeVectBatch proves for a normalised component, nf = ub - lb by wfnum)
+        rx = np_round(x)
+        rax = z3.And(*round_axioms(x))
+        unit = z3.And(0 <= u, u <= 1)
+        LL, BB, RR = (z3.ToReal(v) for v in z3.Ints("L B R"))  # noqa: N806
+        return [
+            ("unit-sample-lands-inside-the-bounds", z3.Implies(z3.And(unit, lb <= ub, nf == ub - lb), z3.And(lb <= U, U <= ub))),
+            ("end-points", z3.Implies(nf == ub - lb, z3.And(z3.substitute(U, (u, z3.RealVal(0))) == lb, z3.substitute(U, (u, z3.RealVal(1))) == ub))),
+            ("equal-bounds-give-the-bound", z3.Implies(z3.And(lb == ub, nf == ub - lb), U == lb)),
+            ("monotone-in-the-unit-sample", z3.Implies(z3.And(lb <= ub, nf == ub - lb, u <= x), U <= x * nf + lb)),
+            ("rounded-value-is-an-integer", z3.Implies(rax, z3.IsInt(rx))),
+            # integer bounds L <= x <= B and an integer-valued R within 1/2 of x (= numpy.round(x), integer-valued by the first axiom), written with
+            # integer variables (linear integer-real arithmetic; with is_int over real-sorted terms z3 does not terminate)
+            ("rounding-stays-inside-integer-bounds", z3.Implies(z3.And(RR - x <= z3.Q(1, 2), x - RR <= z3.Q(1, 2), LL <= x, x <= BB), z3.And(LL <= RR, RR <= BB))),
+            ("rounding-keeps-integer-samples", z3.Implies(z3.And(rax, z3.IsInt(x)), rx == x)),
+        ]
+
+
+@register
+class LinspaceLemmas(Contract):
+    """Bounds and end points of t(i, n) = i / (n - 1) from its definition (facts handed to the provers by the linspace model)."""
+
+    targets = ()
+    prop = ("C14",)
+    lemma = True
+
+    def lemmas(self):
+        i, n = z3.Ints("i n")
+        t = lin_t(i, n)
+        defn = linspace_definition()
+        return [("bounds", z3.Implies(z3.And(defn, n >= 2, 0 <= i, i <= n - 1), z3.And(0 <= t, t <= 1))),
+                ("first-point", z3.Implies(z3.And(defn, n >= 2), lin_t(0, n) == 0)),
+                ("last-point", z3.Implies(z3.And(defn, n >= 2), lin_t(n - 1, n) == 1)),
+                ("increasing", z3.Implies(z3.And(defn, n >= 2, lin_t(i + 1, n) == lin_t(i + 1, n)), lin_t(i, n) < lin_t(i + 1, n)))]
+
+
+@register
+class HstackLemmas(Contract):
+    """Induction (base + step) for the consequences of the recursive offset definition that the hstack model hands to the provers."""
+
+    targets = ()
+    prop = ("C14",)
+    lemma = True
+
+    def lemmas(self):
+        lens = z3.Const("lens", z3.ArraySort(z3.IntSort(), z3.IntSort()))
+        n, m, k, a, b, i, j = z3.Ints("n m k a b i j")
+        off = lambda t: hs_off(lens, t)  # noqa: E731
+        defn = z3.And(off(0) == 0, z3.ForAll([k], z3.Implies(z3.And(0 <= k, k < n), z3.And(off(k + 1) == off(k) + lens[k], lens[k] >= 0)), patterns=[off(k + 1)]))
+        mono = lambda top: z3.ForAll([a, b], z3.Implies(z3.And(0 <= a, a <= b, b <= top), off(a) <= off(b)), patterns=[z3.MultiPattern(off(a), off(b))])  # noqa: E731
+        block = lambda top: z3.ForAll([i], z3.Implies(z3.And(0 <= i, i < off(top)), z3.Exists([b], z3.And(0 <= b, b < top, off(b) <= i, i < off(b + 1)))))  # noqa: E731
+        return [("monotone:base", z3.Implies(defn, mono(z3.IntVal(0)))),
+                ("monotone:step", z3.Implies(z3.And(defn, 0 <= m, m < n, mono(m), off(m + 1) == off(m + 1)), mono(m + 1))),
+                # existence of the block of a position, by induction on the number of blocks; the step is written with explicit witnesses
+                # (b0: the block given by the induction hypothesis when i < off(m); m otherwise), so that no existential has to be guessed
+                ("block-of-position:base", z3.Implies(defn, block(z3.IntVal(0)))),
+                ("block-of-position:step", z3.Implies(z3.And(defn, 0 <= m, m < n, 0 <= i, i < off(m + 1),
+                                                             z3.Implies(i < off(m), z3.And(0 <= b, b < m, off(b) <= i, i < off(b + 1)))),
+                                                      z3.Or(z3.And(0 <= b, b < m + 1, off(b) <= i, i < off(b + 1)), z3.And(0 <= m, m < m + 1, off(m) <= i, i < off(m + 1))))),
+                ("position-in-range", z3.Implies(z3.And(defn, mono(n), 0 <= k, k < n, 0 <= j, j < lens[k], off(k + 1) == off(k + 1), off(n) == off(n)),
+                                                 z3.And(0 <= off(k) + j, off(k) + j < off(n))))]
+
+
+# ---------------------------------------------------------------------------- CustomDOE
+from pyvc.values import TNone  # noqa: E402
+
+CUSTOM = "gemseo.algos.doe.custom_doe.custom_doe.CustomDOE"
+schema(CUSTOM, dict(C.class_schema(BASE + "#c14")))
+transform_vect = z3.Function("c14_transform_vect", z3.BoolSort(), D.VARS.sort(), POL.sort(), F1.sort(), F1.sort())
+
+
+def row_term(a, r):
+    i = z3.Int("i!tr")
+    return F1.dt.mk(a.obj.shape[1], z3.Lambda([i], z3.Select(a.obj.elems, r, i)))
+
+
+@register
+class CustomGenerateUnitSamples(Contract):
+    """Samples given as a matrix: ValueError iff it does not have one column per component of the design space; otherwise one returned row per
+    given row, in the given order: row r is transform_vect(given row r) (compute_doe / _pre_run map it back with untransform_vect)."""
+
+    targets = (CUSTOM + "._generate_unit_samples",)
+    prop = ("C14",)
+    numpy = "precise"
+    c14 = True
+    params = {"design_space": DSO, "settings": TKw({"samples": F2, "doe_file": TNone})}
+    returns = F2
+    modifies = ("design_space",)
+    raises = {"ValueError": lambda c: _kw_field(c, "samples").obj.shape[1] != c.old.design_space.dimension}
+
+    def ensures(self, c):
+        s0, s1 = c.old.design_space, c.new.design_space
+        given, res = _kw_field(c, "samples"), c.result
+        r = z3.Int("r!tr")
+        return [("as-many-rows-as-given", res.obj.shape[0] == given.obj.shape[0]),
+                ("one-column-per-component", res.obj.shape[1] == s0.dimension),
+                ("rows-are-the-given-rows-transformed-in-order",
+                 z3.ForAll([r], z3.Implies(z3.And(0 <= r, r < given.obj.shape[0]), row_term(res, r) == transform_vect(flag(s0), vars_term(s0), norm_term(s0), row_term(given, r))))),
+                ] + ds_kept(s0, s1, *NUM_CACHE_FIELDS)
+
+
+@register
+class CheckUnnormalizationCapabilityCustomDOE(Contract):
+    """A library that does not sample in the unit hypercube (CustomDOE) never rejects a design space."""
+
+    targets = (BASE + ".__check_unnormalization_capability",)
+    variant = "custom-doe"
+    prop = ("C14",)
+    self_class = CUSTOM
+    numpy = "precise"
+    c14 = True
+    params = {"design_space": DSO}
+
+    def ensures(self, c):
+        return ds_kept(c.old.design_space, c.new.design_space)
